@@ -18,7 +18,7 @@ func prodCampaign(rc *RunCtx, chains, steps int) {
 		k := ci*rc.NShards + rc.Shard
 		start := c07Starts[k%len(c07Starts)]
 		double := k%3 == 1
-		variant := k % 5
+		variant := k % 7
 		e, err := NewProdEngine(rc, double, start, func(gs *ct.GenesisState, cfg *chain.Config) {
 			switch variant {
 			case 1: // body size below a burn message: every deposit fails after the burn
@@ -33,6 +33,10 @@ func prodCampaign(rc *RunCtx, chains, steps int) {
 				gs.MaxMessageBodySize.Amount = 132
 			case 4: // a fiat-token-factory whose minting denom is spelled with upper-case letters
 				cfg.MintDenom = "uUSDC"
+			case 5: // minting denoms whose keccak-256 starts with a zero nibble / a zero byte
+				cfg.MintDenom = "uusdc45"
+			case 6:
+				cfg.MintDenom = "uusdc496"
 			}
 			if k%4 == 2 { // stray funds sit in the module account (anyone can send coins to its address)
 				cfg.Funded[moduleBech()] = big.NewInt(1000)
